@@ -36,7 +36,8 @@ Record env := mkEnv {
   e_stake_req : N;      (* blockchain.social_stake_requirement *)
   e_ovf : bool;         (* overflow checks compiled in *)
   e_latest : N;         (* blockchain.get_latest_block_id() *)
-  e_gp : N              (* blockchain.genesis_period *)
+  e_gp : N;             (* blockchain.genesis_period *)
+  e_node : N            (* the node's own public key (interned), read by the pool only *)
 }.
 
 (* TransactionType / SlipType discriminants *)
@@ -115,15 +116,15 @@ Definition tt (t : atx) (i : nat) : aslip := nth i (t_to t) dflt.
 Definition is_new_nft (t : atx) : bool :=
   (Nlen (t_from t) =? 1) && is_type SNormal (fr t 0) && (3 <=? Nlen (t_to t)).
 
-(* "new NFT": slip1/slip3 Bound, slip2 Normal, slip3 amount 0, the loop over
-   `self.from.iter().skip(3)` (sic: the inputs, of which there is one), the NFT
-   id in slip3's key field names the consumed input *)
+(* "new NFT": slip1/slip3 Bound, slip2 Normal, slip3 amount 0, outputs 4.. Normal
+   (since /repo 5a3c1b6 the loop iterates the outputs), the NFT id in slip3's key
+   field names the consumed input *)
 Definition bound_create_ok (t : atx) : bool :=
   negb (Nlen (t_to t) <? 3)
   && is_type SBound (tt t 0) && is_type SBound (tt t 2)
   && is_type SNormal (tt t 1)
   && (sl_amount (tt t 2) =? 0)
-  && forallb (is_type SNormal) (skipn 3 (t_from t))
+  && forallb (is_type SNormal) (skipn 3 (t_to t))
   && (sl_uuid_bid (tt t 2) =? sl_bid (fr t 0))
   && (sl_uuid_ord (tt t 2) =? sl_ord (fr t 0))
   && (sl_uuid_idx (tt t 2) =? sl_idx (fr t 0)).
@@ -174,20 +175,10 @@ Definition bound_checks (e : env) (t : atx) : verdict :=
 
 (* the retention window (validate_against_utxo, which both the pool and block validation
    pass as true): `self.from.iter().any(|slip| slip.amount > 0 && slip.slip_type != Bound
-   && slip.block_id + genesis_period < next_block_id)` with next_block_id = latest + 1;
-   `any` stops at the first too-old input, and `block_id + genesis_period` is a plain u64
-   addition on an attacker-chosen block_id.  Valid = no input is too old. *)
-Fixpoint age_check (ovf : bool) (gp next : N) (l : list aslip) : verdict :=
-  match l with
-  | [] => Valid
-  | s :: rest =>
-      if value_input s then
-        (if two64 <=? sl_bid s + gp
-         then (if ovf then Panics
-               else if (sl_bid s + gp) mod two64 <? next then Invalid else age_check ovf gp next rest)
-         else if sl_bid s + gp <? next then Invalid else age_check ovf gp next rest)
-      else age_check ovf gp next rest
-  end.
+   && slip.block_id.saturating_add(genesis_period) < next_block_id)` with next_block_id =
+   latest + 1.  true = no input is too old. *)
+Definition age_check (gp next : N) (l : list aslip) : bool :=
+  forallb (fun s => negb (value_input s && (sat_add (sl_bid s) gp <? next))) l.
 Definition e_next (e : env) : N := e_latest e + 1.
 
 (* checks on user-originated transactions (everything but ATR and Issuance),
@@ -205,10 +196,8 @@ Definition common_checks (e : env) (t : atx) : verdict :=
   if user && negb (t_has_hash t) then Invalid else
   if user && negb (t_sig_ok t) then Invalid else
   if user && negb (t_type t =? TBound) && negb (all_owned t) then Invalid else
-  match (if user then age_check (e_ovf e) (e_gp e) (e_next e) (t_from t) else Valid) with
-  | Valid => common_tail e t
-  | v => v
-  end.
+  if user && negb (age_check (e_gp e) (e_next e) (t_from t)) then Invalid else
+  common_tail e t.
 
 Definition tx_validate (e : env) (t : atx) : verdict :=
   if 255 <? Nlen (t_from t) then Invalid else
@@ -217,6 +206,7 @@ Definition tx_validate (e : env) (t : atx) : verdict :=
   if t_type t =? TFee then Valid else
   if t_type t =? TSPV then
     (if existsb (fun s => 0 <? sl_amount s) (t_to t) then Invalid
+     else if existsb (fun s => 0 <? sl_amount s) (t_from t) then Invalid
      else if 0 <? total_fees t then Invalid else Valid) else
   if t_type t =? TStake then
     match stake_outs (e_ovf e) 0 (t_to t) with
@@ -230,9 +220,11 @@ Definition tx_validate (e : env) (t : atx) : verdict :=
   else common_checks e t.
 
 (* Mempool::add_transaction_if_validates, the validity gate only (reservations are
-   in model/Mempool.v) *)
+   in model/Mempool.v): no producer-only types, no staking transaction that spends
+   outputs of another key than the node's own, and Transaction::validate *)
 Definition pool_gate (e : env) (t : atx) : bool :=
   negb ((t_type t =? TFee) || (t_type t =? TATR) || (t_type t =? TSPV))
+  && negb ((t_type t =? TStake) && negb (forallb (fun s => sl_pk s =? e_node e) (t_from t)))
   && match tx_validate e t with Valid => true | _ => false end.
 
 (* the final sweep of Block::validate: every transaction validates, and no value
@@ -274,3 +266,10 @@ Definition block_txs_ok (e : env) (id : N) (txs : list atx) : bool :=
 Definition signed_view (s : aslip) : N * N * N * N := (sl_pk s, sl_amount s, sl_idx s, sl_type s).
 Definition signed_content (t : atx) : N * list (N * N * N * N) * list (N * N * N * N) :=
   (t_type t, map signed_view (t_from t), map signed_view (t_to t)).
+(* ... and the signed bytes carry no counts: the 43-byte views of the inputs are followed
+   directly by those of the outputs, so what the signature really is a function of is the
+   flat sequence; where the inputs end is not signed.  (The slip_index inside an output's view
+   is the value the transaction arrived with; Transaction::generate hashes first and only then
+   renumbers the outputs by position.) *)
+Definition signed_flat (t : atx) : N * list (N * N * N * N) :=
+  (t_type t, map signed_view (t_from t) ++ map signed_view (t_to t)).
